@@ -5605,6 +5605,9 @@ def format_float8(value):
             field = f"{value:8.2f}"
         elif value < 1000000.0:
             field = f"{value:8.1f}"
+        elif 9999999.5 <= value < 10000000.0:
+            field = _format_scientific8(value)
+            return field
         else:
             field = f"{value:8.1f}"
             if field.index(".") < 8:
@@ -5775,6 +5778,9 @@ def format_float16(value):
             field = f"{value:16.2f}"
         elif value < 100000000000000.0:
             field = f"{value:16.1f}"
+        elif 999999999999999.5 <= value < 1000000000000000.0:
+            field = _format_scientific16(value)
+            return field
         else:
             field = f"{value:16.1f}"
             if field.index(".") < 16:
